@@ -49,23 +49,37 @@ def _program(nbytes: int, where: str = "top"):
 
 
 def _canon(model) -> Tuple[str, Dict[str, str]]:
-    """(digest of the graph without tensor payloads, {initializer name: digest of its bytes})"""
+    """(digest of the graph without tensor payloads, {tensor name/path: digest of its bytes}) over ALL tensors of the
+    model: initializers and tensor attributes, nested graphs included."""
     import onnx
     from onnx import numpy_helper
-    inits = {}
+    payloads: Dict[str, str] = {}
     m = onnx.ModelProto()
     m.CopyFrom(model)
-    for t in m.graph.initializer:
+
+    def strip(t, where: str) -> None:
         arr = numpy_helper.to_array(t)
-        inits[t.name] = hashlib.sha256(arr.tobytes() + str(arr.dtype).encode() + str(arr.shape).encode()).hexdigest()[:16]
-        t.ClearField("raw_data")
-        t.ClearField("external_data")
-        t.ClearField("data_location")
-        for f in ("float_data", "int32_data", "int64_data", "double_data", "uint64_data", "string_data"):
+        payloads[where] = hashlib.sha256(arr.tobytes() + str(arr.dtype).encode() + str(arr.shape).encode()).hexdigest()[:16]
+        for f in ("raw_data", "external_data", "data_location", "float_data", "int32_data", "int64_data", "double_data",
+                  "uint64_data", "string_data"):
             t.ClearField(f)
+
+    def walk(g, path: str) -> None:
+        for t in g.initializer:
+            strip(t, f"{path}:{t.name}")
+        for k, nd in enumerate(g.node):
+            for a in nd.attribute:
+                if a.type == onnx.AttributeProto.TENSOR:
+                    strip(a.t, f"{path}/node{k}.{a.name}")
+                elif a.type == onnx.AttributeProto.GRAPH:
+                    walk(a.g, f"{path}/node{k}.{a.name}")
+                elif a.type == onnx.AttributeProto.GRAPHS:
+                    for j, sg in enumerate(a.graphs):
+                        walk(sg, f"{path}/node{k}.{a.name}[{j}]")
+    walk(m.graph, "graph")
     m.ClearField("producer_name")
     m.ClearField("producer_version")
-    return hashlib.sha256(m.SerializeToString(deterministic=True)).hexdigest()[:16], inits
+    return hashlib.sha256(m.SerializeToString(deterministic=True)).hexdigest()[:16], payloads
 
 
 def _run(model_or_path, x) -> List[np.ndarray]:
